@@ -281,7 +281,20 @@ def _shrink_task(modname, record, ident, opts, budget_s):
                         else:
                             i += size
                     size //= 2
-                # 3. lower values toward 0
+                # 3a. zero out spans (keeps the alignment of everything after the span)
+                size = max(1, len(best.get(stream, [])) // 2)
+                while size >= 2 and time.time() < deadline:
+                    i = 0
+                    while i < len(best.get(stream, [])) and time.time() < deadline:
+                        lst = best.get(stream, [])
+                        if any(lst[i:i + size]):
+                            cand = dict(best)
+                            cand[stream] = lst[:i] + [0] * len(lst[i:i + size]) + lst[i + size:]
+                            if attempt(cand):
+                                progress = True
+                        i += size
+                    size //= 2
+                # 3b. lower single values toward 0
                 i = 0
                 while i < len(best.get(stream, [])) and time.time() < deadline:
                     lst = best.get(stream, [])
@@ -472,9 +485,10 @@ def main(modname, argv=None):
                     if e is not None:
                         known_hits[ident] += 1
                         continue
-                    cur = new_violations.get(ident)
-                    if cur is None or viol["index"] < cur["index"]:
-                        new_violations[ident] = viol
+                    cands = new_violations.setdefault(ident, [])
+                    cands.append(viol)
+                    cands.sort(key=lambda v: v["index"])
+                    del cands[5:]
                     stop_submitting = True
                 submit_next()
             if not pending and not stop_submitting and selftest_n and selftest_future is None:
@@ -487,29 +501,44 @@ def main(modname, argv=None):
         # ---------------------------------------------------------------- violations
         reported = []
         if new_violations and not harness_errors:
-            items = sorted(new_violations.items(), key=lambda kv: kv[1]["index"])[:3]
+            items = sorted(new_violations.items(), key=lambda kv: kv[1][0]["index"])[:3]
             budget = {"quick": 20, "thorough": 120}[args.tier]
-            for ident, viol in items:
-                rec = viol["record"]
-                info = {"minimised": False, "evals": 0}
-                if not args.no_shrink:
+            for ident, cands in items:
+                # A violation that depends on state left behind by earlier runs of the same worker
+                # process (an address-keyed cache in the code under test, say) does not replay from
+                # its own tape: try the other runs that showed the same violation before giving up.
+                ok = False
+                for viol in cands:
+                    rec = viol["record"]
+                    info = {"minimised": False, "evals": 0}
+                    if not args.no_shrink:
+                        try:
+                            info = pool.submit(_shrink_task, modname, rec, ident, opts, budget).result()
+                            rec = info["record"]
+                        except BrokenProcessPool:
+                            pool.shutdown(wait=False, cancel_futures=True)
+                            pool = ProcessPoolExecutor(max_workers=jobs, mp_context=ctx)
+                            info = {"minimised": False, "evals": 0, "note": "shrinker died; unshrunk tape kept"}
+                    path = _write_replay(mod, args, opts, viol, rec, info)
+                    ok = _verify_replay(mod, path, ident)
+                    if ok:
+                        reported.append((ident, path))
+                        break
                     try:
-                        info = pool.submit(_shrink_task, modname, rec, ident, opts, budget).result()
-                        rec = info["record"]
-                    except BrokenProcessPool:
-                        pool.shutdown(wait=False, cancel_futures=True)
-                        pool = ProcessPoolExecutor(max_workers=jobs, mp_context=ctx)
-                        info = {"minimised": False, "evals": 0, "note": "shrinker died; unshrunk tape kept"}
-                path = _write_replay(mod, args, opts, viol, rec, info)
-                ok = _verify_replay(mod, path, ident)
-                if ok:
-                    reported.append((ident, path))
-                else:
+                        os.remove(path)
+                    except OSError:
+                        pass
+                if not ok:
                     harness_errors.append(
-                        f"violation {ident} found at run {viol['index']} did not reproduce from {path} in a fresh process"
+                        f"violation {ident} seen in runs {[v['index'] for v in cands]} did not reproduce from its replay file in a fresh process"
                     )
     finally:
-        pool.shutdown(wait=False, cancel_futures=True)
+        # (wait: tearing the pool down while its management thread is still alive prints a stray
+        # "Bad file descriptor" at interpreter exit)
+        try:
+            pool.shutdown(wait=True, cancel_futures=True)
+        except Exception:
+            pass
 
     wall = time.time() - t_start
     for e in known:
